@@ -20,7 +20,7 @@ pub fn gen(tier: &str, seed: u64, emit: &mut dyn FnMut(String)) {
         // every tenth stream: two programs whose maps travel on ONE PID with the same version_number (two sub-tables of one
         // PID: the second is taken for a repetition); every twentieth: with different versions (finding F10)
         let shared_pmt_pid = i % 10 == 7 && progs.len() >= 2;
-        if shared_pmt_pid { progs[1].pmt_pid = progs[0].pmt_pid; }
+        if shared_pmt_pid { progs[1].pmt_pid = progs[0].pmt_pid; let n = progs.iter().map(|p| p.number).max().unwrap() + 1; progs[1].number = n; }
         let mut m = Mux::new();
         let pat = section(0, 7, 1, true, &pat_body(&progs.iter().map(|p| (p.number, p.pmt_pid)).collect::<Vec<_>>(), &mut rng));
         let pmts: Vec<Vec<u8>> = progs.iter().enumerate().map(|(idx, p)| { let ver = if shared_pmt_pid && i % 20 == 17 && idx == 1 { 4 } else { 3 }; let ss: Vec<(u8, u16, Vec<u8>)> = p.streams.iter().map(|(t, e)| (*t, *e, if i % 4 == 0 { descriptor(0x80, &vec![0x41; 70]) } else { vec![] })).collect();
